@@ -14,7 +14,7 @@ RULE = {"C19": "four helpers, each driven by random sample sequences under the p
                "timeouts n/1e6 for whole-microsecond n, landings exactly on the timeout).  Non-trivial = sequence with >=2 "
                "state changes / True results / passed low-level records / expiry flips; distinct = hash of the sequence."}
 RULE["C19"] += '  Also: two Toggle / ButtonDebouncer objects on one button sampled in turns, truthy non-bool button levels, cases starting at FPGA time exactly 0.'
-REQUIRED = {"C19": {"toggle-edge-flip": 2000, "toggle-held-no-flip": 2000, "toggle-on-off-pair": 500, "toggle-real-joystick-case": 20, "toggle-two-objects-on-one-button": 100, "filter-record-created-at-another-time": 1000, "clock-starts-at-zero": 30, "debouncer-two-objects-on-one-button": 50, "toggle-nonbool-levels": 50,
+REQUIRED = {"C19": {"toggle-edge-flip": 2000, "toggle-held-no-flip": 2000, "toggle-on-off-pair": 500, "toggle-real-joystick-case": 20, "toggle-two-objects-on-one-button": 100, "button-down-while-the-object-is-built": 100, "filter-record-created-at-another-time": 1000, "clock-starts-at-zero": 30, "debouncer-two-objects-on-one-button": 50, "toggle-nonbool-levels": 50,
                     "toggle-debounce-flip": 300, "toggle-debounce-suppressed-edge": 100,
                     "debouncer-true": 1000, "debouncer-suppressed-press": 1000, "debouncer-required-true": 300, "debouncer-exact-strict": 30,
                     "filter-bypass-pass": 1000, "filter-low-pass": 500, "filter-low-suppressed": 1000, "filter-through-real-logger": 50,
@@ -111,7 +111,10 @@ def run_toggle(acc, case):
 
         def set_level(v):
             joy.level = v
-    set_level(False)
+    # the level the button happens to have while the object is being built is not a sample
+    set_level(bool(case.get("level_at_construction")))
+    if case.get("level_at_construction"):
+        acc.ev("button-down-while-the-object-is-built")
     def mk():
         return Toggle(joy, btn) if period is None else Toggle(joy, btn, period / 1e6 if not case.get("period_int") else period // 1000000)
     # one Toggle, or two built for the very same joystick object, button and period and sampled in turns: each is judged
@@ -479,6 +482,12 @@ def _from_zero(case, acc):
         acc.ev("clock-starts-at-zero")
 
 
+def _maybe_down(rng, c):
+    if rng.random() < 0.2:
+        c["level_at_construction"] = True
+    return c
+
+
 def _maybe_zero(rng, c):
     if rng.random() < 0.1 and not c.get("grid"):
         c["from_zero"] = True
@@ -510,11 +519,11 @@ def gen_case(rng, kind):
             c["stick"] = rng.randrange(0, 6)
             c["samples"] = c["samples"][:40]
         _maybe_twin(rng, c)
-        return c
+        return _maybe_down(rng, c)
     if kind == "toggle_db":
         p = GRID * rng.choice([1, 4, 16, 32, 64]) if grid else rng.choice([500000, 100000, 20000, 250000, rng.randrange(1, 1000000)])
-        return _maybe_zero(rng, _maybe_twin(rng, {"kind": "toggle", "grid": grid, "period_us": p, "period_int": p % 1000000 == 0 and rng.random() < 0.5,
-                                 "samples": gen_samples(rng, rng.choice([40, 120, 300]), grid)}))
+        return _maybe_down(rng, _maybe_zero(rng, _maybe_twin(rng, {"kind": "toggle", "grid": grid, "period_us": p, "period_int": p % 1000000 == 0 and rng.random() < 0.5,
+                                 "samples": gen_samples(rng, rng.choice([40, 120, 300]), grid)})))
     if kind == "debouncer":
         p = GRID * rng.choice([1, 4, 16, 32, 64]) if grid else rng.choice([500000, 100000, 20000, 1000000, rng.randrange(1, 1000000)])
         samples = gen_samples(rng, rng.choice([40, 120, 300]), grid)
